@@ -2,7 +2,8 @@
    VERIF_SCHED = "<victim path>|<rule>;<rule>;..."   rule = <point>,<k>,<action>[,<arg>]
      point  : lstat | open | fstat | read        (the k-th call of that kind on the victim, k from 1; the action runs BEFORE the call)
      action : truncate,N | append,N | rewrite,N (truncate to 0, then write N fresh bytes) | replace,N (rename a new file of N bytes over it) | unlink | mkdir (replace by a directory) |
-              symlink (replace by a symlink) | regrow,N (append N fresh bytes: used after a truncate rule)
+              symlink (replace by a symlink) | regrow,N (append N fresh bytes: used after a truncate rule) |
+              fail (read points only: the read returns -1 / EIO)
    The victim is matched by exact path for lstat/open, and by descriptor (recorded at open) for fstat/read.
    Every fired rule is appended to the file named by VERIF_SCHED_LOG. */
 #define _GNU_SOURCE
@@ -27,6 +28,7 @@ static int count_lstat, count_open, count_fstat, count_read;
 static int victim_fds[64];
 static int nfds;
 static int busy;
+static int fail_this_read;       /* set by the action "fail": the intercepted read() returns -1 / EIO instead of being made */
 
 static void load(void) {
     nrules = 0;
@@ -78,6 +80,8 @@ static void act(struct rule *x, int idx) {
         snprintf(tmp, sizeof tmp, "%s.new", victim);
         int fd = syscall(SYS_openat, AT_FDCWD, tmp, O_WRONLY | O_CREAT | O_TRUNC, 0644);
         if (fd >= 0) { fresh(fd, x->arg, idx + 23); syscall(SYS_close, fd); rename(tmp, victim); }
+    } else if (!strcmp(x->action, "fail")) {
+        fail_this_read = 1;
     } else if (!strcmp(x->action, "unlink")) {
         unlink(victim);
     } else if (!strcmp(x->action, "mkdir")) {
@@ -197,6 +201,7 @@ ssize_t read(int fd, void *buf, size_t n) {
     static ssize_t (*real)(int, void *, size_t) = 0;
     if (!real) real = dlsym(RTLD_NEXT, "read");
     if (!busy && nfds && is_victim_fd(fd)) point("read", ++count_read);
+    if (fail_this_read) { fail_this_read = 0; errno = EIO; return -1; }
     return real(fd, buf, n);
 }
 
